@@ -30,6 +30,13 @@ ordinary statement:
   rule), and on such trees the walk returns a value or an error (`ParseGood`);
 * `C14_preprocess_parse`: hence the whole text-to-bytes path of the model (`preprocess` and
   `assemble`) reports no panic other than a fuel marker.
+* `C14_ingest_terminates`: ingestion of a file graph TERMINATES. In a file system whose files have at most `N`
+  statements (`nodesBound`), `preprocess` at nesting level `d` (number of open sources) with fuel at least
+  `(256 - d) · (N + 2) + (N + 2)` (that is `(257 - d) · (N + 2)` up to the limit, `256 · (N + 2)` for the top file)
+  reports no panic outcome at all, fuel marker included — nesting is cut off at 256 sources and every file has
+  finitely many statements, also on include cycles; and `ingestFile` above the explicit threshold `ingestFileFuel`
+  (that bound, and the `C14_terminates` bound of the raw ops obtained) returns bytes or an error value. More fuel
+  never changes an answer (`Asm.preprocess_fuel_mono`).
 Partial by nature: (a) the pest interpreter and the walk are MODELS of pest
 2.1.3 / `parse/*.rs`, tied to the real parser by the correspondence run on valid,
 near-valid and random texts (0 panics, 0 outcome disagreements); (b) the
@@ -41,6 +48,7 @@ import EtkVerif.Asm.ExprLemmas
 import EtkVerif.Asm.Ingest
 import EtkVerif.Asm.FuelLemmas
 import EtkVerif.Asm.ParseTotal
+import EtkVerif.Asm.IngestFuel
 namespace EtkVerif.C14
 open Asm
 
@@ -212,5 +220,26 @@ theorem C14_preprocess_parse (fs : FS) (cwd : PathC) (site : String) : ∀ (fuel
           · split at h
             · simp at h
             · exact ihp _ _ _ h
+
+/-- file ingestion terminates: with fuel above an explicit bound in the longest file (`N` statements) and the nesting
+level, `preprocess` reports no panic outcome, the fuel marker included; `ingestFile` above the threshold
+`ingestFileFuel` (preprocess bound `256 * (N + 2)`, then the assembler bound of `C14_terminates` for the raw ops
+obtained) returns bytes or an error value -/
+theorem C14_ingest_terminates (fs : FS) (cwd : PathC) (N : Nat) (hN : nodesBound fs N) :
+    (∀ (fuel : Nat) (prog : Program) (src : List Nat) (tr : List Event),
+      (∀ nodes, parseAsm src = .ok nodes → nodes.length ≤ N) →
+      (256 - prog.sources.length) * (N + 2) + (N + 2) ≤ fuel →
+      ∀ site, preprocess fs cwd fuel prog src tr ≠ .error (.panic site) ∧
+        preprocess fs cwd fuel prog src tr ≠ .error (.parse (.panic site))) ∧
+    (∀ (rnd : Nat → Nat) (fuel : Nat) (path : PathC) (e : IngErr),
+      ingestFileFuel fs cwd N path ≤ fuel → ingestFile fs cwd rnd fuel path = .error e →
+      ∀ site, e ≠ .panic site ∧ e ≠ .parse (.panic site) ∧ e ≠ .assemble (.panic site)) := by
+  refine ⟨?_, ?_⟩
+  · intro fuel prog src tr hsrc hf site
+    have hb := preprocess_fuel_sufficient_benign fs cwd N hN fuel prog src tr hsrc hf
+    exact ⟨fun h => (hb _ h).1 site rfl, fun h => (hb _ h).2.1 site rfl⟩
+  · intro rnd fuel path e hf h site
+    have hb := ingestFile_terminates fs cwd rnd N hN fuel path hf e h
+    exact ⟨hb.1 site, hb.2.1 site, hb.2.2 site⟩
 
 end EtkVerif.C14
